@@ -97,7 +97,7 @@ func denyField(k *Case) string {
 
 func hasToken(op string) bool {
 	switch op {
-	case "renew", "rekey", "revokemtls":
+	case "renew", "rekey", "revokemtls", "sshsignk8s": // no token, or a token that is reusable by design
 		return false
 	}
 	return true
@@ -380,6 +380,9 @@ var scenarios = []scenario{
 	{Op: "sign", Var: "notlsauth", Deny: true, A: 1}, {Op: "scep", Var: "bearer", A: 1, CH: 1},
 	// … and the same after the provisioner went through the admin database (every webhook field converted both ways)
 	{Op: "sign", Var: "adminrebootbearer", E: 1, A: 1}, {Op: "sign", Var: "adminrebootbasic", A: 1}, {Op: "sign", Var: "adminrebootnotlsauth", Deny: true, A: 1},
+	// a provisioner type with reusable tokens (Kubernetes service accounts): SSH sign, its webhooks
+	{Op: "sshsignk8s", Chks: []int{4}}, {Op: "sshsignk8s", E: 1, A: 1}, {Op: "sshsignk8s", Deny: true, CT: "typed", A: 1}, {Op: "sshsignk8s", Deny: true, CT: "typed", E: 1},
+	{Op: "sshsignk8s", Deny: true, CT: "other", E: 1, A: 1},
 	// a less used provisioner type (X5C): same signing path, its own webhooks
 	{Op: "signx5c", Chks: []int{1}}, {Op: "signx5c", E: 1, A: 1}, {Op: "signx5c", Deny: true, CT: "unset", A: 1},
 	// through the handler ca.New / Init assemble from a configuration on disk (routers, middleware, base context)
